@@ -3,19 +3,29 @@
 //!   c39 <tier> <seed> <outdir>
 //!   c39 explore            (developer aid)
 //!
-//! Implementation level (oracle): signed / tampered / unsigned assets of several formats (signed
-//! in-process, plus fixtures with chains and failures) are added to a new manifest as parentOf /
-//! componentOf / inputTo ingredients through `add_ingredient_from_stream` (and through
-//! `add_ingredient_from_reader`), the parent is signed and read back. Compared with a stand-alone
+//! Implementation level (oracle): signed (claim version 1 and 2) / tampered / damaged / chained /
+//! unsigned assets of several formats — including unsigned assets of formats WITHOUT asset handler
+//! (text/plain, application/octet-stream, PSD, unknown types), assets carrying an empty manifest
+//! store, assets with a wrong format hint, assets with an inaccessible remote manifest — are added
+//! to a new manifest (claim version 2 and 1) as parentOf / componentOf / inputTo ingredients through
+//! `add_ingredient_from_stream`, the parent is signed and read back. Compared with a stand-alone
 //! read of the ingredient asset (same settings): every manifest of the ingredient's store is
 //! present in the parent's store with identical reported content; the ingredient's
 //! `active_manifest`, `validation_results` and `validation_status` equal the stand-alone read's;
-//! a tampered ingredient shows its failure; an unsigned one records no manifest and no failure.
-//! Scenarios with two ingredients: the same store twice (dedupe), two different stores, and two
-//! stores holding *different* manifests under the *same* label (conflict relabelling).
+//! a tampered ingredient shows its failure; an unsigned one records no manifest and no failure and
+//! never blocks signing; the parent's own read reports no failure delta for a faithfully captured
+//! ingredient. Scenarios with two ingredients: the same store twice (dedupe), two different stores,
+//! and two stores holding *different* manifests under the *same* label (conflict relabelling).
 //!
-//! Model level: `C39 merge …` — the resulting ingredient store (labels → content ids) of
-//! `Store::load_ingredient_to_claim` sequences against Model/C39.lean.
+//! Model level:
+//! * `C39 add v=<claim version> read=<class> vers=<claim versions of the stand-alone store>` — the
+//!   request carries the REAL outcome class of the stand-alone read as the ingredient path sees it
+//!   (load through the handler of the declared format, then the Reader's result) and the claim
+//!   versions of the manifests it found; the reply is the presence triple the `Ingredient` returned
+//!   by `add_ingredient_from_stream` really records (active_manifest / manifest_data /
+//!   validation_results) and the outcome class of `Builder::sign`.
+//! * `C39 mergeall v=… stores=…` — the resulting ingredient store (labels → content ids) of the
+//!   `Store::load_ingredient_to_claim` sequence, or its error class, against Model/C39.lean.
 
 #[path = "../defgen.rs"]
 mod defgen;
@@ -33,19 +43,36 @@ struct Asset {
     name: String,
     format: String,
     data: Vec<u8>,
-    kind: &'static str, // unsigned | signed | tampered | chain | fixture-invalid
+    /// unsigned | signed | signed-v1 | tampered | damaged | chain | fixture-invalid | remote |
+    /// mislabelled | noprov
+    kind: &'static str,
+    /// settings variant the asset is read / added with (see `settings_for`)
+    st: u8,
+}
+
+fn asset(name: &str, format: &str, data: Vec<u8>, kind: &'static str) -> Asset {
+    Asset { name: name.to_string(), format: format.to_string(), data, kind, st: 0 }
 }
 
 fn settings() -> String {
     base_settings()
 }
 
-/// sign `src` with an optional forced manifest label and an optional ingredient
-fn sign_with(fmt: &str, src: &[u8], title: &str, label: Option<&str>, ingredient: Option<&Asset>, extra: Option<Value>) -> c2pa::Result<Vec<u8>> {
+/// 0 = base; 1 = no verification after reading
+fn settings_for(st: u8) -> String {
+    match st {
+        1 => json!({"verify": {"verify_trust": true, "remote_manifest_fetch": false, "ocsp_fetch": false, "verify_after_reading": false}}).to_string(),
+        _ => base_settings(),
+    }
+}
+
+/// sign `src` (claim version `cv`) with an optional forced manifest label and an optional ingredient
+fn sign_with(fmt: &str, src: &[u8], title: &str, label: Option<&str>, ingredient: Option<&Asset>, extra: Option<Value>, cv: u8) -> c2pa::Result<Vec<u8>> {
     let ctx = Context::new().with_settings(settings().as_str())?;
     let mut def = json!({
         "title": title,
         "format": fmt,
+        "claim_version": cv,
         "claim_generator_info": [{"name": "verif-c39", "version": "1"}],
         "assertions": [
             {"label": "c2pa.actions", "data": {"actions": [{"action": "c2pa.created", "digitalSourceType": "http://cv.iptc.org/newscodes/digitalsourcetype/digitalCapture"}]}}
@@ -72,10 +99,30 @@ struct Parent {
     report: Value,
 }
 
-/// Build a parent with the given ingredients, sign, read back.
-fn make_parent(fmt: &str, src: &[u8], ings: &[(Asset, &'static str, bool)]) -> Result<Parent, String> {
-    let ctx = Context::new().with_settings(settings().as_str()).map_err(|e| format!("{e:?}"))?;
-    let has_parent = ings.iter().any(|(_, rel, _)| *rel == "parentOf");
+/// What really happened: the presence triple each returned `Ingredient` records, and the outcome.
+struct Built {
+    /// per ingredient (active_manifest, manifest_data, validation_results) presence
+    triples: Vec<(bool, bool, bool)>,
+    /// error of `add_ingredient_from_stream`, if any
+    add_err: Option<String>,
+    /// `Builder::sign` + read back
+    outcome: Result<Parent, String>,
+    /// the signed parent asset
+    bytes: Option<Vec<u8>>,
+}
+
+/// Build a parent (claim version `v`, settings variant `st`) with the given ingredients, sign, read back.
+fn build(fmt: &str, src: &[u8], ings: &[(Asset, &'static str)], v: u8, st: u8) -> Built {
+    let mut built = Built { triples: vec![], add_err: None, outcome: Err("not built".into()), bytes: None };
+    let stg = settings_for(st);
+    let ctx = match Context::new().with_settings(stg.as_str()) {
+        Ok(c) => c,
+        Err(e) => {
+            built.outcome = Err(format!("{e:?}"));
+            return built;
+        }
+    };
+    let has_parent = ings.iter().any(|(_, rel)| *rel == "parentOf");
     let action = if has_parent {
         json!({"action": "c2pa.opened", "parameters": {"ingredientIds": ["ing0"]}})
     } else {
@@ -84,29 +131,170 @@ fn make_parent(fmt: &str, src: &[u8], ings: &[(Asset, &'static str, bool)]) -> R
     let def = json!({
         "title": "parent",
         "format": fmt,
+        "claim_version": v,
         "claim_generator_info": [{"name": "verif-c39", "version": "1"}],
         "assertions": [{"label": "c2pa.actions", "data": {"actions": [action]}}]
     });
-    let mut b = Builder::from_context(ctx).with_definition(def.to_string().as_str()).map_err(|e| format!("definition: {e:?}"))?;
-    for (k, (a, rel, via_reader)) in ings.iter().enumerate() {
-        if *via_reader {
-            let rctx = Context::new().with_settings(settings().as_str()).map_err(|e| format!("{e:?}"))?;
-            let reader = Reader::from_context(rctx).with_stream(&a.format, Cursor::new(a.data.clone())).map_err(|e| format!("reader for ingredient: {e:?}"))?;
-            // a reader-derived ingredient is the parent ingredient of the read manifest; wrap: use the asset itself
-            let _ = reader;
-            b.add_ingredient_from_stream(json!({"title": a.name, "relationship": rel, "label": format!("ing{k}")}).to_string(), &a.format, &mut Cursor::new(a.data.clone())).map_err(|e| format!("add_ingredient: {e:?}"))?;
-        } else {
-            b.add_ingredient_from_stream(json!({"title": a.name, "relationship": rel, "label": format!("ing{k}")}).to_string(), &a.format, &mut Cursor::new(a.data.clone())).map_err(|e| format!("add_ingredient: {e:?}"))?;
+    let mut b = match Builder::from_context(ctx).with_definition(def.to_string().as_str()) {
+        Ok(b) => b,
+        Err(e) => {
+            built.outcome = Err(format!("definition: {e:?}"));
+            return built;
+        }
+    };
+    for (k, (a, rel)) in ings.iter().enumerate() {
+        match b.add_ingredient_from_stream(json!({"title": a.name, "relationship": rel, "label": format!("ing{k}")}).to_string(), &a.format, &mut Cursor::new(a.data.clone())) {
+            Ok(i) => built.triples.push((i.active_manifest().is_some(), i.manifest_data_ref().is_some(), i.validation_results().is_some())),
+            Err(e) => {
+                built.add_err = Some(format!("{e:?}"));
+                built.outcome = Err(format!("add_ingredient: {e:?}"));
+                return built;
+            }
         }
     }
-    let signer = EphemeralSigner::new("verif-parent.test").map_err(|e| format!("{e:?}"))?;
+    let signer = match EphemeralSigner::new("verif-parent.test") {
+        Ok(s) => s,
+        Err(e) => {
+            built.outcome = Err(format!("{e:?}"));
+            return built;
+        }
+    };
     let mut out = Cursor::new(Vec::new());
-    b.sign(&signer, fmt, &mut Cursor::new(src.to_vec()), &mut out).map_err(|e| {
-        let s = format!("{e:?}");
-        format!("sign: {}", &s[..s.len().min(300)])
-    })?;
-    let (state, report, _) = read(fmt, out.get_ref(), &settings())?;
-    Ok(Parent { state, report })
+    built.outcome = match b.sign(&signer, fmt, &mut Cursor::new(src.to_vec()), &mut out) {
+        Err(e) => {
+            let s = format!("{e:?}");
+            Err(format!("sign: {}", &s[..s.len().min(300)]))
+        }
+        Ok(_) => {
+            built.bytes = Some(out.get_ref().clone());
+            read(fmt, out.get_ref(), &stg).map(|(state, report, _)| Parent { state, report })
+        }
+    };
+    built
+}
+
+/// (kind, code, manifest label, path, ingredient uri) of a status; the url
+/// `self#jumbf=/c2pa/<label>/<path>` is split, any other url has no manifest label
+type St = (u8, String, String, String, Option<String>);
+
+fn split_url(url: &str) -> (String, String) {
+    match url.strip_prefix("self#jumbf=/c2pa/") {
+        Some(rest) => match rest.split_once('/') {
+            Some((l, p)) => (l.to_string(), p.to_string()),
+            None => (rest.to_string(), String::new()),
+        },
+        None => (String::new(), url.to_string()),
+    }
+}
+
+fn join_url(manifest: &str, path: &str) -> String {
+    if manifest.is_empty() {
+        path.to_string()
+    } else if path.is_empty() {
+        format!("self#jumbf=/c2pa/{manifest}")
+    } else {
+        format!("self#jumbf=/c2pa/{manifest}/{path}")
+    }
+}
+
+/// statuses of a `StatusCodes` JSON object
+fn flatten_codes(sc: &Value, ing: Option<&str>, out: &mut Vec<St>) {
+    for (k, name) in [(0u8, "success"), (1, "informational"), (2, "failure")] {
+        for s in sc[name].as_array().into_iter().flatten() {
+            let (m, p) = split_url(s["url"].as_str().unwrap_or(""));
+            out.push((k, s["code"].as_str().unwrap_or("?").to_string(), m, p, ing.map(|x| x.to_string())));
+        }
+    }
+}
+
+/// every status of a `ValidationResults` JSON object
+fn flatten_results(vr: &Value, keep_ing: bool) -> Vec<St> {
+    let mut out = vec![];
+    flatten_codes(&vr["activeManifest"], None, &mut out);
+    for d in vr["ingredientDeltas"].as_array().into_iter().flatten() {
+        flatten_codes(&d["validationDeltas"], if keep_ing { d["ingredientAssertionURI"].as_str() } else { None }, &mut out);
+    }
+    out
+}
+
+fn fmt_statuses(v: &[St]) -> String {
+    if v.is_empty() {
+        "-".into()
+    } else {
+        v.iter().map(|(k, c, m, p, u)| format!("{k}|{c}|{m}|{p}|{}", u.as_deref().unwrap_or("-"))).collect::<Vec<_>>().join(";")
+    }
+}
+
+/// error class of `Builder::sign` as the model names it
+fn sign_class(e: &str) -> &'static str {
+    if e.contains("must both be present or absent") {
+        "err bothOrNeither"
+    } else if e.contains("ingredient label malformed") {
+        "err malformed"
+    } else if e.contains("ingredient missing provenace claim") {
+        "err missingProv"
+    } else if e.contains("ingredient version too new") {
+        "err tooNew"
+    } else if e.contains("VersionCompatibility") {
+        "err versionCompat"
+    } else {
+        "err other"
+    }
+}
+
+/// error class of a read as `update_validation_status` distinguishes them
+fn err_class(e: &str) -> &'static str {
+    let head = e.split('(').next().unwrap_or("");
+    match head {
+        "JumbfNotFound" => "JumbfNotFound",
+        "ProvenanceMissing" => "ProvenanceMissing",
+        "UnsupportedType" => "UnsupportedType",
+        "RemoteManifestUrl" => "RemoteManifestUrl",
+        "RemoteManifestFetch" => "RemoteManifestFetch",
+        "OperationCancelled" => "OperationCancelled",
+        "BadParam" if e.contains("unrecognized file type") => "UnrecognizedFileType",
+        _ => "other",
+    }
+}
+
+/// The stand-alone read of an ingredient asset: the Reader's result (the property's reference) and
+/// the outcome class as the ingredient path sees it — the load goes through the handler registered
+/// for the *declared* format (a Reader sniffs the format from the bytes, `add_stream_internal` does
+/// not), an embedded store is then validated as the Reader does.
+fn standalone(a: &Asset) -> (&'static str, Result<(String, Value, Reader), String>) {
+    let alone = read(&a.format, &a.data, &settings_for(a.st));
+    let load = c2pa::verif_hooks::c07::read_cai(&a.format, &mut Cursor::new(a.data.clone()));
+    let class = match (&load, &alone) {
+        // nothing embedded: the Reader's answer (JumbfNotFound, or the remote-manifest classes)
+        (Ok(b), Ok(_)) if b.is_empty() => "ok",
+        (Ok(b), Err(e)) if b.is_empty() => err_class(e),
+        (Err(e), Ok(_)) if format!("{e:?}") == "JumbfNotFound" => "ok",
+        (Err(e), Err(r)) if format!("{e:?}") == "JumbfNotFound" => err_class(r),
+        (Err(e), _) => err_class(&format!("{e:?}")),
+        (Ok(_), Ok(_)) => "ok",
+        (Ok(_), Err(e)) => err_class(e),
+    };
+    (class, alone)
+}
+
+/// claim versions of the manifests of a report, active manifest last
+fn versions_of(rep: &Value) -> Vec<u64> {
+    let active = rep.get("active_manifest").and_then(|x| x.as_str()).unwrap_or("");
+    let mut labels: Vec<&String> = rep["manifests"].as_object().map(|m| m.keys().filter(|k| k.as_str() != active).collect()).unwrap_or_default();
+    labels.sort();
+    let mut v: Vec<u64> = labels.iter().map(|l| rep["manifests"][l.as_str()]["claim_version"].as_u64().unwrap_or(2)).collect();
+    if !active.is_empty() && rep["manifests"].get(active).is_some() {
+        v.push(rep["manifests"][active]["claim_version"].as_u64().unwrap_or(2));
+    }
+    v
+}
+
+fn fmt_versions(v: &[u64]) -> String {
+    if v.is_empty() {
+        "-".into()
+    } else {
+        v.iter().map(|x| x.to_string()).collect::<Vec<_>>().join(",")
+    }
 }
 
 /// byte span of the C2PA region(s) in a signed asset
@@ -136,14 +324,24 @@ fn codes(list: &Value) -> Vec<String> {
     v
 }
 
-/// The oracle for one ingredient of a parent report against the stand-alone read.
-fn check_ingredient(run: &mut Run, idx: usize, key: &str, ing: &Value, parent: &Value, alone: &Result<(String, Value, Reader), String>, kind: &str) -> bool {
+fn bare_codes(list: Option<&Value>) -> Vec<String> {
+    let mut c: Vec<String> = list.and_then(|x| x.as_array()).map(|a| a.iter().map(|s| s["code"].as_str().unwrap_or("?").to_string()).collect()).unwrap_or_default();
+    c.sort();
+    c
+}
+
+fn recorded_anything(ing: &Value) -> bool {
+    ing.get("active_manifest").is_some() || ing.get("validation_results").is_some() || ing.get("validation_status").is_some() || ing.get("manifest_data").is_some()
+}
+
+/// The oracle for one ingredient of a parent report (claim version `v`) against the stand-alone read.
+fn check_ingredient(run: &mut Run, idx: usize, key: &str, ing: &Value, parent: &Value, alone: &Result<(String, Value, Reader), String>, kind: &str, v: u8) -> bool {
     let mut ok = true;
     match alone {
         Err(e) => {
             // no manifest (or unreadable): nothing may be recorded
             if kind == "unsigned" {
-                if ing.get("active_manifest").is_some() || ing.get("validation_results").is_some() || ing.get("validation_status").is_some() || ing.get("manifest_data").is_some() {
+                if recorded_anything(ing) {
                     ok = false;
                     run.fail(idx, "unsigned-ingredient-has-manifest-or-failure", format!("{key}: stand-alone read gives {e}; ingredient records {}", &ing.to_string()[..ing.to_string().len().min(300)]));
                 }
@@ -152,7 +350,7 @@ fn check_ingredient(run: &mut Run, idx: usize, key: &str, ing: &Value, parent: &
                     ok = false;
                     run.fail(idx, "unsigned-ingredient-has-manifest-or-failure", format!("{key}: stand-alone read finds no manifest; ingredient records one"));
                 }
-            } else if ing.get("validation_results").is_none() && ing.get("validation_status").is_none() {
+            } else if v == 2 && ing.get("validation_results").is_none() && ing.get("validation_status").is_none() {
                 ok = false;
                 run.fail(idx, "unreadable-ingredient-recorded-clean", format!("{key}: stand-alone read fails with {e} but the ingredient records no failure"));
             }
@@ -178,29 +376,49 @@ fn check_ingredient(run: &mut Run, idx: usize, key: &str, ing: &Value, parent: &
                     }
                 }
             }
-            // validation results copied from the stand-alone read
-            let want = strip_time(&rep["validation_results"]);
-            let got = ing.get("validation_results").map(strip_time).unwrap_or(Value::Null);
-            if canon_json(&want) != canon_json(&got) {
-                ok = false;
-                let (a, b) = (codes(&want["activeManifest"]["failure"]), codes(&got["activeManifest"]["failure"]));
-                run.fail(idx, "ingredient-validation-results-differ", format!("{key}: stand-alone state {state}; failures stand-alone {a:?} ingredient {b:?}; (full results differ)"));
-            }
-            // validation_status = the errors of the stand-alone read
-            let want_status = codes(rep.get("validation_status").unwrap_or(&Value::Null));
-            let got_status = codes(ing.get("validation_status").unwrap_or(&Value::Null));
-            // (a v3 ingredient assertion carries validationResults only; compare the legacy list
-            // when the ingredient has one)
-            if ing.get("validation_status").is_some() && want_status != got_status {
-                ok = false;
-                run.fail(idx, "ingredient-validation-status-differs", format!("{key}: stand-alone {want_status:?} ingredient {got_status:?}"));
-            }
-            if state == "Invalid" {
-                let f = got["activeManifest"]["failure"].as_array().map(|a| a.len()).unwrap_or(0)
-                    + got["ingredientDeltas"].as_array().map(|a| a.iter().map(|d| d["validationDeltas"]["failure"].as_array().map(|x| x.len()).unwrap_or(0)).sum::<usize>()).unwrap_or(0);
-                if f == 0 {
+            if v == 2 {
+                // validation results copied from the stand-alone read
+                let want = strip_time(&rep["validation_results"]);
+                let got = ing.get("validation_results").map(strip_time).unwrap_or(Value::Null);
+                if canon_json(&want) != canon_json(&got) {
                     ok = false;
-                    run.fail(idx, "tampered-ingredient-reported-clean", format!("{key}: stand-alone read is Invalid, the ingredient shows no failure"));
+                    let (a, b) = (codes(&want["activeManifest"]["failure"]), codes(&got["activeManifest"]["failure"]));
+                    run.fail(idx, "ingredient-validation-results-differ", format!("{key}: stand-alone state {state}; failures stand-alone {a:?} ingredient {b:?}; (full results differ)"));
+                }
+                // (a v3 ingredient assertion carries validationResults only; compare the legacy list
+                // when the ingredient has one)
+                let want_status = codes(rep.get("validation_status").unwrap_or(&Value::Null));
+                let got_status = codes(ing.get("validation_status").unwrap_or(&Value::Null));
+                if ing.get("validation_status").is_some() && want_status != got_status {
+                    ok = false;
+                    run.fail(idx, "ingredient-validation-status-differs", format!("{key}: stand-alone {want_status:?} ingredient {got_status:?}"));
+                }
+                if state == "Invalid" {
+                    let f = got["activeManifest"]["failure"].as_array().map(|a| a.len()).unwrap_or(0)
+                        + got["ingredientDeltas"].as_array().map(|a| a.iter().map(|d| d["validationDeltas"]["failure"].as_array().map(|x| x.len()).unwrap_or(0)).sum::<usize>()).unwrap_or(0);
+                    if f == 0 {
+                        ok = false;
+                        run.fail(idx, "tampered-ingredient-reported-clean", format!("{key}: stand-alone read is Invalid, the ingredient shows no failure"));
+                    }
+                }
+            } else {
+                // version 1 claim: the v2 ingredient assertion carries the failure list
+                let (want_codes, got_codes) = (bare_codes(rep.get("validation_status")), bare_codes(ing.get("validation_status")));
+                if want_codes != got_codes {
+                    ok = false;
+                    run.fail(idx, "ingredient-validation-status-differs", format!("{key}: (claim version 1) stand-alone {want_codes:?} ingredient {got_codes:?}"));
+                }
+            }
+            // the parent's own read must not report a failure delta about an ingredient manifest:
+            // what re-validation finds is already in the ingredient assertion
+            let parent_active = parent.get("active_manifest").and_then(|x| x.as_str()).unwrap_or("");
+            for d in parent["validation_results"]["ingredientDeltas"].as_array().into_iter().flatten() {
+                for f in d["validationDeltas"]["failure"].as_array().into_iter().flatten() {
+                    let url = f["url"].as_str().unwrap_or("");
+                    if parent_active.is_empty() || !url.contains(parent_active) {
+                        ok = false;
+                        run.fail(idx, "parent-read-shows-ingredient-delta-failure", format!("{key}: the parent's read reports {}@{url} as a delta for {}", f["code"].as_str().unwrap_or("?"), d["ingredientAssertionURI"].as_str().unwrap_or("?")));
+                    }
                 }
             }
         }
@@ -218,11 +436,11 @@ fn main() {
     if args.len() >= 2 && args[1] == "explore" {
         let src = std::fs::read(fixtures().join("libpng-test.png")).unwrap();
         let l = "urn:c2pa:11111111-2222-4333-8444-555555555555";
-        let a = sign_with("image/png", &src, "A", Some(l), None, Some(json!({"who": "A"}))).expect("A");
-        let b = sign_with("image/png", &src, "B", Some(l), None, Some(json!({"who": "B"}))).expect("B");
-        let aa = Asset { name: "A".into(), format: "image/png".into(), data: a, kind: "signed" };
-        let bb = Asset { name: "B".into(), format: "image/png".into(), data: b, kind: "signed" };
-        match make_parent("image/png", &src, &[(aa, "componentOf", false), (bb, "componentOf", false)]) {
+        let a = sign_with("image/png", &src, "A", Some(l), None, Some(json!({"who": "A"})), 2).expect("A");
+        let b = sign_with("image/png", &src, "B", Some(l), None, Some(json!({"who": "B"})), 2).expect("B");
+        let aa = asset("A", "image/png", a, "signed");
+        let bb = asset("B", "image/png", b, "signed");
+        match build("image/png", &src, &[(aa, "componentOf"), (bb, "componentOf")], 2, 0).outcome {
             Ok(p) => println!("state {}\n{}", p.state, serde_json::to_string_pretty(&p.report).unwrap()),
             Err(e) => println!("error: {e}"),
         }
@@ -231,17 +449,40 @@ fn main() {
     main_with("C39", run);
 }
 
+/// a C2PA manifest store without any manifest: jumb { jumd(c2pa) }
+fn empty_store() -> Vec<u8> {
+    let mut jumd = vec![0x63, 0x32, 0x70, 0x61, 0x00, 0x11, 0x00, 0x10, 0x80, 0x00, 0x00, 0xaa, 0x00, 0x38, 0x9b, 0x71, 0x03];
+    jumd.extend_from_slice(b"c2pa\0");
+    let mut jb = vec![];
+    jb.extend_from_slice(&((8 + jumd.len()) as u32).to_be_bytes());
+    jb.extend_from_slice(b"jumd");
+    jb.extend_from_slice(&jumd);
+    let mut sup = vec![];
+    sup.extend_from_slice(&((8 + jb.len()) as u32).to_be_bytes());
+    sup.extend_from_slice(b"jumb");
+    sup.extend_from_slice(&jb);
+    sup
+}
+
+fn b01(b: bool) -> &'static str {
+    if b {
+        "1"
+    } else {
+        "0"
+    }
+}
+
 pub fn run(run: &mut Run, rng: &mut Rng) {
-    run.rule = "an asset (unsigned / signed in-process / tampered after signing / signed with an ingredient chain / fixtures with failures) is added to a new manifest as parentOf, componentOf or inputTo ingredient, the parent is signed and read back, and the ingredient entry and the parent's store are compared with a stand-alone read of the ingredient asset; non-trivial = the parent signed and every comparison held; distinct by (parent format, ingredient asset, relationship, scenario)".to_string();
+    run.rule = "an asset (unsigned with / without asset handler, with an empty store, with a wrong format hint / signed in-process with claim version 1 or 2 / tampered after signing / damaged / signed with an ingredient chain / fixtures with failures / remote manifest not fetched) is added to a new manifest (claim version 2 or 1) as parentOf, componentOf or inputTo ingredient, the parent is signed and read back, and the ingredient entry, the parent's store and the parent's ingredient deltas are compared with a stand-alone read of the ingredient asset; non-trivial = the parent signed and every comparison held, or the refusal is the version gate; distinct by (parent format, claim version, ingredient asset, relationship, scenario)".to_string();
     let thorough = run.thorough();
     let sources: Vec<(&'static str, Vec<u8>)> = unsigned_sources().into_iter().filter_map(|(f, n)| std::fs::read(fixtures().join(n)).ok().filter(|d| d.len() <= if thorough { 1_200_000 } else { 110_000 }).map(|d| (f, d))).collect();
     // ingredient asset pool
     let mut pool: Vec<Asset> = vec![];
     for (f, d) in &sources {
-        pool.push(Asset { name: format!("unsigned-{f}"), format: f.to_string(), data: d.clone(), kind: "unsigned" });
-        match sign_with(f, d, &format!("signed {f}"), None, None, None) {
+        pool.push(asset(&format!("unsigned-{f}"), f, d.clone(), "unsigned"));
+        match sign_with(f, d, &format!("signed {f}"), None, None, None, 2) {
             Ok(s) => {
-                let signed = Asset { name: format!("signed-{f}"), format: f.to_string(), data: s.clone(), kind: "signed" };
+                let signed = asset(&format!("signed-{f}"), f, s.clone(), "signed");
                 // tamper: flip one content byte (not in the manifest, container still parses):
                 // hard-binding mismatch
                 let (mlo, mhi) = manifest_span(f, &s);
@@ -251,109 +492,209 @@ pub fn run(run: &mut Run, rng: &mut Rng) {
                     k = if mhi + 40 < t.len() { mhi + (t.len() - mhi) / 2 } else { mlo / 2 };
                 }
                 t[k] ^= 0x01;
-                pool.push(Asset { name: format!("tampered-{f}"), format: f.to_string(), data: t, kind: "tampered" });
+                pool.push(asset(&format!("tampered-{f}"), f, t, "tampered"));
                 // damaged: flip a byte of the container trailer (the asset may no longer parse)
                 let mut dmg = s.clone();
                 let k = dmg.len() - 5;
                 dmg[k] ^= 0x55;
-                pool.push(Asset { name: format!("damaged-{f}"), format: f.to_string(), data: dmg, kind: "damaged" });
+                pool.push(asset(&format!("damaged-{f}"), f, dmg, "damaged"));
                 // chain: sign again with the signed asset as ingredient
                 if d.len() <= 110_000 {
-                    if let Ok(c) = sign_with(f, d, &format!("chain {f}"), None, Some(&signed), None) {
-                        pool.push(Asset { name: format!("chain-{f}"), format: f.to_string(), data: c, kind: "chain" });
+                    if let Ok(c) = sign_with(f, d, &format!("chain {f}"), None, Some(&signed), None, 2) {
+                        pool.push(asset(&format!("chain-{f}"), f, c, "chain"));
                     }
                 }
                 pool.push(signed);
             }
             Err(e) => run.notes.push(format!("could not sign {f}: {e:?}")),
         }
+        // the same source signed with a version 1 claim (+ a version 1 chain)
+        if d.len() <= 110_000 {
+            match sign_with(f, d, &format!("signed v1 {f}"), None, None, None, 1) {
+                Ok(s) => {
+                    let s1 = asset(&format!("signed-v1-{f}"), f, s, "signed-v1");
+                    if let Ok(c) = sign_with(f, d, &format!("chain v1 {f}"), None, Some(&s1), None, 1) {
+                        pool.push(asset(&format!("chain-v1-{f}"), f, c, "signed-v1"));
+                    }
+                    pool.push(s1);
+                }
+                Err(e) => run.notes.push(format!("could not sign {f} with a version 1 claim: {e:?}")),
+            }
+        }
     }
-    for (n, kind) in [("CA.jpg", "chain"), ("C.jpg", "signed"), ("XCA.jpg", "fixture-invalid"), ("E-sig-CA.jpg", "fixture-invalid"), ("CACA.jpg", "chain"), ("E-clm-CAICAI.jpg", "fixture-invalid")] {
+    for (n, kind) in [("CA.jpg", "chain"), ("C.jpg", "signed-v1"), ("XCA.jpg", "fixture-invalid"), ("E-sig-CA.jpg", "fixture-invalid"), ("CACA.jpg", "chain"), ("CACAE-uri-CA.jpg", "fixture-invalid")] {
         if let Ok(d) = std::fs::read(fixtures().join(n)) {
-            pool.push(Asset { name: n.to_string(), format: "image/jpeg".into(), data: d, kind });
+            pool.push(asset(n, "image/jpeg", d, kind));
         }
     }
     if let Ok(d) = std::fs::read(fixtures().join("cloud.jpg")) {
-        pool.push(Asset { name: "cloud.jpg(remote manifest, fetch off)".into(), format: "image/jpeg".into(), data: d, kind: "remote" });
+        // (with remote_manifest_fetch on and no network the class is RemoteManifestFetch — same match
+        // arm — but every fetch attempt blocks for minutes in this sandbox: not generated)
+        pool.push(asset("cloud.jpg(remote manifest, fetch off)", "image/jpeg", d, "remote"));
+    }
+    // unsigned assets of formats WITHOUT an asset handler ("no manifest": UnsupportedType)
+    let mut r0 = rng.fork();
+    let blob: Vec<u8> = (0..r0.range(1, 4000)).map(|_| r0.below(256) as u8).collect();
+    pool.push(asset("unsigned-text/plain(prompt)", "text/plain", b"a photo of a purple square, studio light".to_vec(), "unsigned"));
+    pool.push(asset("unsigned-application/octet-stream", "application/octet-stream", blob.clone(), "unsigned"));
+    pool.push(asset("unsigned-application/x-verif-unknown", "application/x-verif-unknown", blob.clone(), "unsigned"));
+    pool.push(asset("unsigned-extension-xyz", "xyz", blob.clone(), "unsigned"));
+    pool.push(asset("unsigned-application/json", "application/json", br#"{"k": [1, 2, 3]}"#.to_vec(), "unsigned"));
+    pool.push(asset("unsigned-empty-text", "text/plain", vec![], "unsigned"));
+    if let Ok(d) = std::fs::read(fixtures().join("Purple Square.psd")) {
+        pool.push(asset("unsigned-psd", "image/vnd.adobe.photoshop", d.clone(), "unsigned"));
+        pool.push(asset("unsigned-psd(by extension)", "psd", d, "unsigned"));
+    }
+    // an empty asset of a handled format: the handler cannot read it
+    pool.push(asset("unsigned-empty-jpeg", "image/jpeg", vec![], "unsigned"));
+    // a manifest store without any manifest ("no manifest": ProvenanceMissing); with verification
+    // off the same asset yields a store without provenance claim (kind noprov)
+    for (f, d) in sources.iter().filter(|(f, _)| *f == "image/png" || *f == "image/jpeg") {
+        let mut o = Cursor::new(Vec::new());
+        if c2pa::verif_hooks::c07::write_cai(f, &mut Cursor::new(d.clone()), &mut o, &empty_store()).is_ok() {
+            pool.push(asset(&format!("empty-store-{f}"), f, o.get_ref().clone(), "unsigned"));
+            let mut a = asset(&format!("empty-store-{f}(verify_after_reading off)"), f, o.into_inner(), "noprov");
+            a.st = 1;
+            pool.push(a);
+        }
+    }
+    // an unsigned asset declared with the wrong format (a Reader sniffs the real one)
+    if let Some((_, png)) = sources.iter().find(|(f, _)| *f == "image/png") {
+        pool.push(asset("unsigned-png-declared-as-jpeg", "image/jpeg", png.clone(), "mislabelled"));
+    }
+    if let Some((_, jpg)) = sources.iter().find(|(f, _)| *f == "image/jpeg") {
+        pool.push(asset("unsigned-jpeg-declared-as-png", "image/png", jpg.clone(), "mislabelled"));
     }
     let parents: Vec<&(&'static str, Vec<u8>)> = sources.iter().filter(|(_, d)| d.len() <= 110_000).collect();
     let rels = ["parentOf", "componentOf", "inputTo"];
-    // A: every pool asset in every relationship (quick: relationship rotates)
+    // A: every pool asset in every relationship, into a version 2 and a version 1 claim
     let mut k = 0usize;
     for a in pool.clone() {
-        let rel_list: Vec<&'static str> = rels.to_vec();
-        for rel in rel_list {
-            let (pf, ps) = parents[k % parents.len()];
-            k += 1;
-            let key = format!("A parent={pf} ingredient={} kind={} rel={rel}", a.name, a.kind);
-            run.count(&format!("kind:{}", a.kind));
-            run.count(&format!("relationship:{rel}"));
-            run.count(&format!("ingredient-format:{}", a.format));
-            let (a2, fmt2) = (a.clone(), a.format.clone());
-            let alone = read(&fmt2, &a2.data, &settings());
-            let req = format!("C39 add kind={} rel={rel}", match &alone {
-                Ok(_) => "manifest",
-                Err(e) if e.contains("JumbfNotFound") => "none",
-                Err(e) if e.contains("RemoteManifest") => "remote",
-                Err(_) => "damaged",
-            });
-            let (pf2, ps2, a3) = (pf.to_string(), ps.clone(), a.clone());
-            match guarded(move || make_parent(&pf2, &ps2, &[(a3, rel, false)])) {
-                Err(p) => {
-                    let idx = run.case(req, "panic".into());
-                    run.fail(idx, "panic", format!("{key}: {p}"));
-                }
-                Ok(Err(e)) => {
-                    let idx = run.case(req, "error".into());
-                    let al = match &alone {
-                        Ok((st, rep, _)) => format!("stand-alone read: {st}, failures {:?}", codes(&rep["validation_results"]["activeManifest"]["failure"])),
-                        Err(e) => format!("stand-alone read fails: {e}"),
-                    };
-                    let class = if a.kind == "remote" { "inaccessible-remote-ingredient-blocks-signing" } else if alone.is_err() && a.kind != "unsigned" { "damaged-ingredient-blocks-signing" } else { "parent-sign-failed" };
-                    run.fail(idx, class, format!("{key}: {e}; {al}"));
-                }
-                Ok(Ok(p)) => {
-                    let ings = ingredients_of(&p.report);
-                    let imp = format!("ingredients={} active={} results={}", ings.len(), ings.first().map(|i| i.get("active_manifest").is_some()).unwrap_or(false), ings.first().map(|i| i.get("validation_results").is_some()).unwrap_or(false));
-                    let idx = run.case(req, imp);
-                    if ings.len() != 1 {
-                        run.fail(idx, "ingredient-count-differs", format!("{key}: {} ingredients reported", ings.len()));
+        let (class, alone) = standalone(&a);
+        let vers = match &alone {
+            Ok((_, rep, _)) => versions_of(rep),
+            Err(_) => vec![],
+        };
+        for rel in rels.iter().copied() {
+            for v in [2u8, 1] {
+                let (pf, ps) = parents[k % parents.len()];
+                k += 1;
+                let key = format!("A parent={pf} v={v} ingredient={} kind={} rel={rel}", a.name, a.kind);
+                run.count(&format!("kind:{}", a.kind));
+                run.count(&format!("relationship:{rel}"));
+                run.count(&format!("ingredient-format:{}", a.format));
+                run.count(&format!("claim-version:{v}"));
+                run.count(&format!("read-class:{class}"));
+                let req = format!("C39 add v={v} read={class} vers={} rel={rel}", fmt_versions(&vers));
+                let (pf2, ps2, a3) = (pf.to_string(), ps.clone(), a.clone());
+                let built = match guarded(move || build(&pf2, &ps2, &[(a3.clone(), rel)], v, a3.st)) {
+                    Err(p) => {
+                        let idx = run.case(req, "panic".into());
+                        run.fail(idx, "panic", format!("{key}: {p}"));
                         continue;
                     }
-                    if ings[0].get("relationship").and_then(|x| x.as_str()) != Some(rel) {
-                        run.fail(idx, "ingredient-relationship-differs", format!("{key}: reported {:?}", ings[0].get("relationship")));
+                    Ok(b) => b,
+                };
+                if let Some(e) = &built.add_err {
+                    let idx = run.case(req, if e.contains("OperationCancelled") { "cancelled".into() } else { "add-error".into() });
+                    run.fail(idx, "add-ingredient-failed", format!("{key}: {e}"));
+                    continue;
+                }
+                let t = built.triples.first().copied().unwrap_or((false, false, false));
+                let sign = match &built.outcome {
+                    Ok(_) => "ok",
+                    Err(e) => sign_class(e),
+                };
+                let imp = format!("rec active={} data={} results={} sign={sign}", b01(t.0), b01(t.1), b01(t.2));
+                let idx = run.case(req, imp);
+                // property, on the recorded ingredient itself: an unsigned asset records nothing
+                if a.kind == "unsigned" && (t.0 || t.1 || t.2) {
+                    run.fail(idx, "unsigned-ingredient-has-manifest-or-failure", format!("{key}: stand-alone read class {class}; the ingredient records active_manifest={} manifest_data={} validation_results={}", t.0, t.1, t.2));
+                }
+                match &built.outcome {
+                    Err(e) => {
+                        let al = match &alone {
+                            Ok((st, rep, _)) => format!("stand-alone read: {st}, failures {:?}", codes(&rep["validation_results"]["activeManifest"]["failure"])),
+                            Err(e) => format!("stand-alone read fails: {e}"),
+                        };
+                        let newer = vers.iter().any(|x| *x > v as u64);
+                        if sign == "err tooNew" && newer {
+                            // the version gate: by design, not a failure
+                            run.count("refused:ingredient-claim-version-newer");
+                            run.nontrivial(key);
+                            continue;
+                        }
+                        if a.kind == "noprov" && sign == "err missingProv" {
+                            // a store without manifests read with verification off: outside the
+                            // property's quantifier (neither signed nor unsigned)
+                            run.count("refused:store-without-provenance-claim");
+                            continue;
+                        }
+                        let class = if a.kind == "unsigned" {
+                            "unsigned-ingredient-blocks-signing"
+                        } else if a.kind == "remote" {
+                            "inaccessible-remote-ingredient-blocks-signing"
+                        } else if a.kind == "mislabelled" {
+                            "mislabelled-unsigned-ingredient-blocks-signing"
+                        } else if alone.is_err() {
+                            "damaged-ingredient-blocks-signing"
+                        } else {
+                            "parent-sign-failed"
+                        };
+                        run.fail(idx, class, format!("{key}: {e}; {al}"));
                     }
-                    if check_ingredient(run, idx, &key, &ings[0], &p.report, &alone, a.kind) {
-                        run.nontrivial(key);
+                    Ok(p) => {
+                        let ings = ingredients_of(&p.report);
+                        if ings.len() != 1 {
+                            run.fail(idx, "ingredient-count-differs", format!("{key}: {} ingredients reported", ings.len()));
+                            continue;
+                        }
+                        if ings[0].get("relationship").and_then(|x| x.as_str()) != Some(rel) {
+                            run.fail(idx, "ingredient-relationship-differs", format!("{key}: reported {:?}", ings[0].get("relationship")));
+                        }
+                        // (the reference for a wrongly declared format is what a Reader finds)
+                        if check_ingredient(run, idx, &key, &ings[0], &p.report, &alone, a.kind, v) {
+                            run.nontrivial(key);
+                        }
                     }
                 }
             }
         }
     }
     // B: two ingredients
-    let signed: Vec<Asset> = pool.iter().filter(|a| a.kind == "signed" || a.kind == "chain").cloned().collect();
-    let n_pairs = if thorough { 1000 } else { 24 };
+    let signed: Vec<Asset> = pool.iter().filter(|a| a.kind == "signed" || a.kind == "chain" || a.kind == "signed-v1").cloned().collect();
+    let signed_v1: Vec<Asset> = signed.iter().filter(|a| a.kind == "signed-v1").cloned().collect();
+    let n_pairs = if thorough { 1000 } else { 80 };
     for i in 0..n_pairs {
         let mut r = rng.fork();
-        let a = r.pick(&signed).clone();
+        // claim version 1 parents in a quarter of the pairs, mostly with version 1 ingredients
+        let v: u8 = if i % 4 == 3 { 1 } else { 2 };
+        let from: &Vec<Asset> = if v == 1 && i % 8 != 7 && !signed_v1.is_empty() { &signed_v1 } else { &signed };
+        let a = r.pick(from).clone();
         let same = i % 2 == 0;
-        let b = if same { a.clone() } else { r.pick(&signed).clone() };
+        let b = if same { a.clone() } else { r.pick(from).clone() };
         let (pf, ps) = *r.pick(&parents);
-        let key = format!("B parent={pf} ingredients={}+{} same={same}", a.name, b.name);
+        let key = format!("B parent={pf} v={v} ingredients={}+{} same={same}", a.name, b.name);
         run.count(if same { "pair:same-store-twice" } else { "pair:two-stores" });
+        run.count(&format!("pair-claim-version:{v}"));
         let (pf2, ps2, a2, b2) = (pf.to_string(), ps.clone(), a.clone(), b.clone());
         // abstract the two stores: labels L0,L1,… and contents c0,c1,… by first appearance
         let ra = read(&a.format, &a.data, &settings());
         let rb = read(&b.format, &b.data, &settings());
         let mut lab: Vec<String> = vec![];
         let mut con: Vec<String> = vec![];
-        let mut abs_store = |rep: &Value| -> Vec<(String, String)> {
+        let mut abs_store = |rep: &Value| -> Vec<(String, String, u64)> {
             let mut out = vec![];
-            let mut keys: Vec<&String> = rep["manifests"].as_object().map(|m| m.keys().collect()).unwrap_or_default();
+            let active = rep.get("active_manifest").and_then(|x| x.as_str()).unwrap_or("").to_string();
+            let mut keys: Vec<String> = rep["manifests"].as_object().map(|m| m.keys().filter(|k| **k != active).cloned().collect()).unwrap_or_default();
             keys.sort();
+            // the active manifest is the provenance claim: last
+            if rep["manifests"].get(&active).is_some() {
+                keys.push(active.clone());
+            }
             for k in keys {
-                let c = canon_json(&rep["manifests"][k]);
-                let li = lab.iter().position(|x| x == k).unwrap_or_else(|| {
+                let c = canon_json(&rep["manifests"][&k]);
+                let li = lab.iter().position(|x| *x == k).unwrap_or_else(|| {
                     lab.push(k.clone());
                     lab.len() - 1
                 });
@@ -361,7 +702,7 @@ pub fn run(run: &mut Run, rng: &mut Rng) {
                     con.push(c.clone());
                     con.len() - 1
                 });
-                out.push((format!("L{li}"), format!("c{ci}")));
+                out.push((format!("L{li}"), format!("c{ci}"), rep["manifests"][&k]["claim_version"].as_u64().unwrap_or(2)));
             }
             out
         };
@@ -369,19 +710,30 @@ pub fn run(run: &mut Run, rng: &mut Rng) {
             (Ok((_, x, _)), Ok((_, y, _))) => (abs_store(x), abs_store(y)),
             _ => (vec![], vec![]),
         };
-        let fmt_store = |s: &Vec<(String, String)>| if s.is_empty() { "-".to_string() } else { s.iter().map(|(l, c)| format!("{l}:{c}")).collect::<Vec<_>>().join(",") };
-        let req = format!("C39 merge v=2 skip=0 sorted=1 cur={} inc={}", fmt_store(&sa), fmt_store(&sb));
+        let fmt_store = |s: &Vec<(String, String, u64)>| if s.is_empty() { "-".to_string() } else { s.iter().map(|(l, c, cv)| format!("{l}:{c}:{cv}")).collect::<Vec<_>>().join(",") };
+        let req = format!("C39 mergeall v={v} skip=0 sorted=1 stores={}|{}", fmt_store(&sa), fmt_store(&sb));
+        let newer = sa.iter().chain(sb.iter()).any(|x| x.2 > v as u64);
         let (lab2, con2) = (lab.clone(), con.clone());
-        match guarded(move || make_parent(&pf2, &ps2, &[(a2, "componentOf", false), (b2, "inputTo", false)])) {
+        let built = match guarded(move || build(&pf2, &ps2, &[(a2, "componentOf"), (b2, "inputTo")], v, 0)) {
             Err(p) => {
                 let idx = run.case(req, "panic".into());
                 run.fail(idx, "panic", format!("{key}: {p}"));
+                continue;
             }
-            Ok(Err(e)) => {
-                let idx = run.case(req, "error".into());
-                run.fail(idx, "parent-sign-failed", format!("{key}: {e}"));
+            Ok(b) => b,
+        };
+        match built.outcome {
+            Err(e) => {
+                let cls = sign_class(&e);
+                let idx = run.case(req, cls.into());
+                if cls == "err tooNew" && newer {
+                    run.count("refused:ingredient-claim-version-newer");
+                    run.nontrivial(key);
+                } else {
+                    run.fail(idx, "parent-sign-failed", format!("{key}: {e}"));
+                }
             }
-            Ok(Ok(p)) => {
+            Ok(p) => {
                 let ings = ingredients_of(&p.report);
                 // the parent's ingredient store in the same abstraction (unknown labels/contents: X)
                 let active = p.report.get("active_manifest").and_then(|x| x.as_str()).unwrap_or("").to_string();
@@ -402,7 +754,7 @@ pub fn run(run: &mut Run, rng: &mut Rng) {
                 let mut ok = true;
                 for (ing, asset) in ings.iter().zip([&a, &b]) {
                     let alone = read(&asset.format, &asset.data, &settings());
-                    ok &= check_ingredient(run, idx, &key, ing, &p.report, &alone, asset.kind);
+                    ok &= check_ingredient(run, idx, &key, ing, &p.report, &alone, asset.kind, v);
                 }
                 if ok {
                     run.nontrivial(key);
@@ -413,22 +765,22 @@ pub fn run(run: &mut Run, rng: &mut Rng) {
     // C: two stores holding different manifests under the same label (conflict relabelling)
     if let Some((pf, ps)) = parents.first().map(|x| (x.0, &x.1)) {
         let l = "urn:c2pa:11111111-2222-4333-8444-555555555555";
-        let a = sign_with(pf, ps, "A", Some(l), None, Some(json!({"who": "A"})));
-        let b = sign_with(pf, ps, "B", Some(l), None, Some(json!({"who": "B"})));
+        let a = sign_with(pf, ps, "A", Some(l), None, Some(json!({"who": "A"})), 2);
+        let b = sign_with(pf, ps, "B", Some(l), None, Some(json!({"who": "B"})), 2);
         if let (Ok(a), Ok(b)) = (a, b) {
-            let aa = Asset { name: "A(label L)".into(), format: pf.to_string(), data: a, kind: "signed" };
-            let bb = Asset { name: "B(label L)".into(), format: pf.to_string(), data: b, kind: "signed" };
+            let aa = asset("A(label L)", pf, a, "signed");
+            let bb = asset("B(label L)", pf, b, "signed");
             let key = format!("C parent={pf} two ingredients with different manifests under one label");
             run.count("pair:label-conflict");
             let (pf2, ps2, a2, b2) = (pf.to_string(), ps.clone(), aa.clone(), bb.clone());
-            let req = "C39 merge v=2 skip=0 cur=L:a inc=L:b".to_string();
-            match guarded(move || make_parent(&pf2, &ps2, &[(a2, "componentOf", false), (b2, "componentOf", false)])) {
+            let req = "C39 mergeall v=2 skip=0 stores=L:a:2|L:b:2".to_string();
+            match guarded(move || build(&pf2, &ps2, &[(a2, "componentOf"), (b2, "componentOf")], 2, 0)).map(|b| b.outcome) {
                 Err(p) => {
                     let idx = run.case(req, "panic".into());
                     run.fail(idx, "panic", format!("{key}: {p}"));
                 }
                 Ok(Err(e)) => {
-                    let idx = run.case(req, if e.contains("ingredient label malformed") { "err malformed".into() } else { "err other".into() });
+                    let idx = run.case(req, sign_class(&e).into());
                     run.fail(idx, "conflicting-label-ingredients-sign-fails", format!("{key}: {e}"));
                 }
                 Ok(Ok(p)) => {
@@ -465,16 +817,22 @@ pub fn run(run: &mut Run, rng: &mut Rng) {
         }
     }
     // D: ingredient through a C2PA ingredient archive (write_ingredient_archive → add_ingredient_from_archive)
+    let signed2: Vec<Asset> = signed.iter().filter(|a| a.kind != "signed-v1").cloned().collect();
     let n_arch = if thorough { 40 } else { 6 };
     for i in 0..n_arch {
         let mut r = rng.fork();
-        let a = r.pick(&signed).clone();
+        let a = r.pick(&signed2).clone();
         let (pf, ps) = *r.pick(&parents);
         let key = format!("D{i} parent={pf} archived ingredient={}", a.name);
         run.count("via:ingredient-archive");
         let (pf2, ps2, a2) = (pf.to_string(), ps.clone(), a.clone());
-        let req = "C39 add kind=manifest rel=archive".to_string();
-        let res = guarded(move || -> Result<Parent, String> {
+        let alone = read(&a.format, &a.data, &settings());
+        let vers = match &alone {
+            Ok((_, rep, _)) => versions_of(rep),
+            Err(_) => vec![],
+        };
+        let req = format!("C39 add v=2 read=ok vers={} rel=archive", fmt_versions(&vers));
+        let res = guarded(move || -> Result<((bool, bool, bool), Result<Parent, String>), String> {
             let st = json!({"verify": {"verify_trust": true, "remote_manifest_fetch": false, "ocsp_fetch": false}, "builder": {"generate_c2pa_archive": true}}).to_string();
             let ctx = Context::new().with_settings(st.as_str()).map_err(|e| format!("{e:?}"))?;
             let mut b1 = Builder::from_context(ctx);
@@ -486,12 +844,18 @@ pub fn run(run: &mut Run, rng: &mut Rng) {
             let def = json!({"title": "parent", "format": pf2, "claim_generator_info": [{"name": "verif-c39", "version": "1"}],
                 "assertions": [{"label": "c2pa.actions", "data": {"actions": [{"action": "c2pa.created", "digitalSourceType": "http://cv.iptc.org/newscodes/digitalsourcetype/digitalCapture"}]}}]});
             let mut b2 = Builder::from_context(ctx2).with_definition(def.to_string().as_str()).map_err(|e| format!("{e:?}"))?;
-            b2.add_ingredient_from_archive(&mut ar).map_err(|e| format!("add_ingredient_from_archive: {e:?}"))?;
+            // the ingredient as it comes back out of the archive
+            let t = {
+                let i = b2.add_ingredient_from_archive(&mut ar).map_err(|e| format!("add_ingredient_from_archive: {e:?}"))?;
+                (i.active_manifest().is_some(), i.manifest_data_ref().is_some(), i.validation_results().is_some())
+            };
             let signer = EphemeralSigner::new("verif-parent.test").map_err(|e| format!("{e:?}"))?;
             let mut out = Cursor::new(Vec::new());
-            b2.sign(&signer, &pf2, &mut Cursor::new(ps2.clone()), &mut out).map_err(|e| format!("sign: {e:?}"))?;
-            let (state, report, _) = read(&pf2, out.get_ref(), &settings())?;
-            Ok(Parent { state, report })
+            let outcome = match b2.sign(&signer, &pf2, &mut Cursor::new(ps2.clone()), &mut out) {
+                Err(e) => Err(format!("sign: {e:?}")),
+                Ok(_) => read(&pf2, out.get_ref(), &settings()).map(|(state, report, _)| Parent { state, report }),
+            };
+            Ok((t, outcome))
         });
         match res {
             Err(p) => {
@@ -499,22 +863,141 @@ pub fn run(run: &mut Run, rng: &mut Rng) {
                 run.fail(idx, "panic", format!("{key}: {p}"));
             }
             Ok(Err(e)) => {
-                let idx = run.case(req, "error".into());
+                let idx = run.case(req, "add-error".into());
                 run.fail(idx, "archived-ingredient-failed", format!("{key}: {}", &e[..e.len().min(300)]));
             }
-            Ok(Ok(p)) => {
-                let ings = ingredients_of(&p.report);
-                let imp = format!("ingredients={} active={} results={}", ings.len(), ings.first().map(|i| i.get("active_manifest").is_some()).unwrap_or(false), ings.first().map(|i| i.get("validation_results").is_some()).unwrap_or(false));
-                let idx = run.case(req, imp);
-                if ings.len() != 1 {
-                    run.fail(idx, "ingredient-count-differs", format!("{key}: {} ingredients", ings.len()));
-                    continue;
+            Ok(Ok((t, outcome))) => {
+                let sign = match &outcome {
+                    Ok(_) => "ok",
+                    Err(e) => sign_class(e),
+                };
+                let idx = run.case(req, format!("rec active={} data={} results={} sign={sign}", b01(t.0), b01(t.1), b01(t.2)));
+                match outcome {
+                    Err(e) => run.fail(idx, "archived-ingredient-failed", format!("{key}: {}", &e[..e.len().min(300)])),
+                    Ok(p) => {
+                        let ings = ingredients_of(&p.report);
+                        if ings.len() != 1 {
+                            run.fail(idx, "ingredient-count-differs", format!("{key}: {} ingredients", ings.len()));
+                            continue;
+                        }
+                        if check_ingredient(run, idx, &key, &ings[0], &p.report, &alone, a.kind, 2) {
+                            run.nontrivial(key);
+                        }
+                        let _ = p.state;
+                    }
                 }
-                let alone = read(&a.format, &a.data, &settings());
-                if check_ingredient(run, idx, &key, &ings[0], &p.report, &alone, a.kind) {
-                    run.nontrivial(key);
+            }
+        }
+    }
+    // E: the parent's read — which logged statuses `ValidationResults::from_store` reports, given the
+    // statuses captured in the ingredient assertions of a REAL signed parent (tampered / chained /
+    // plain ingredients) and a synthetic validation log built around them
+    let by_name = |n: &str| pool.iter().find(|a| a.name == n).cloned();
+    let mut groups: Vec<Vec<Asset>> = vec![];
+    for names in [vec!["tampered-image/png"], vec!["chain-image/png"], vec!["signed-image/jpeg", "tampered-image/png"], vec!["XCA.jpg"], vec!["unsigned-image/png"]] {
+        let g: Vec<Asset> = names.iter().filter_map(|n| by_name(n)).collect();
+        if g.len() == names.len() {
+            groups.push(g);
+        }
+    }
+    let n_logs = if thorough { 400 } else { 40 };
+    for (gi, g) in groups.iter().enumerate() {
+        let Some((pf, ps)) = parents.iter().find(|(f, _)| *f == "image/png").map(|x| (x.0, x.1.clone())) else { break };
+        let ings: Vec<(Asset, &'static str)> = g.iter().map(|a| (a.clone(), "componentOf")).collect();
+        let built = build(pf, &ps, &ings, 2, 0);
+        let (Ok(p), Some(bytes)) = (&built.outcome, &built.bytes) else {
+            run.notes.push(format!("E{gi}: parent not built"));
+            continue;
+        };
+        let active = p.report.get("active_manifest").and_then(|x| x.as_str()).unwrap_or("").to_string();
+        // captured: every status of every ingredient assertion of every manifest of the store
+        let mut captured: Vec<St> = vec![];
+        for (_, m) in p.report["manifests"].as_object().into_iter().flatten() {
+            for i in m["ingredients"].as_array().into_iter().flatten() {
+                if let Some(vr) = i.get("validation_results") {
+                    captured.extend(flatten_results(vr, false));
                 }
-                let _ = p.state;
+            }
+        }
+        let Ok(jumbf) = c2pa::verif_hooks::c07::read_cai(pf, &mut Cursor::new(bytes.clone())) else { continue };
+        let ctx = Context::new().with_settings(settings().as_str()).expect("context");
+        let mut rep = c2pa::status_tracker::StatusTracker::default();
+        let Ok(store) = c2pa::verif_hooks::c19::store_from_jumbf(&jumbf, &mut rep, &ctx) else {
+            run.notes.push(format!("E{gi}: store not parsed"));
+            continue;
+        };
+        let ing_uri = format!("self#jumbf=/c2pa/{active}/c2pa.assertions/c2pa.ingredient.v3");
+        let other_label = captured.iter().map(|c| c.2.clone()).find(|m| !m.is_empty() && *m != active).unwrap_or_else(|| "urn:c2pa:00000000-0000-4000-8000-000000000000".to_string());
+        for li in 0..n_logs {
+            let mut r = rng.fork();
+            let only_active = li % 5 == 4;
+            let n = r.below(9) as usize;
+            let mut logged: Vec<St> = vec![];
+            for _ in 0..n {
+                let pick = if only_active { 5 + r.below(2) } else { r.below(7) };
+                let c = if captured.is_empty() { None } else { Some(r.pick(&captured).clone()) };
+                let item: St = match (pick, c) {
+                    // a captured status found again while the ingredient is re-validated
+                    (0, Some(c)) => (c.0, c.1, c.2, c.3, Some(ing_uri.clone())),
+                    // the same status logged outside an ingredient
+                    (1, Some(c)) => (c.0, c.1, c.2, c.3, None),
+                    // same code and url, other kind
+                    (2, Some(c)) => ((c.0 + 1) % 3, c.1, c.2, c.3, Some(ing_uri.clone())),
+                    // same code, other url
+                    (3, Some(c)) => (c.0, c.1, c.2, format!("{}x", c.3), Some(ing_uri.clone())),
+                    // a failure about an ingredient manifest the capture does not hold
+                    (4, _) | (0..=3, None) => (2, (*r.pick(&["assertion.dataHash.mismatch", "claimSignature.mismatch", "assertion.hashedURI.mismatch"])).to_string(), other_label.clone(), "c2pa.assertions/c2pa.hash.data".into(), Some(ing_uri.clone())),
+                    // statuses about the active manifest itself
+                    (5, _) => (r.below(3) as u8, "assertion.hashedURI.match".into(), active.clone(), "c2pa.assertions/c2pa.actions.v2".into(), None),
+                    _ => (2, "assertion.action.ingredientMismatch".into(), active.clone(), "c2pa.assertions/c2pa.actions.v2".into(), Some(ing_uri.clone())),
+                };
+                logged.push(item);
+            }
+            let mut log = c2pa::status_tracker::StatusTracker::default();
+            for (k, code, m, pth, u) in &logged {
+                log.add_non_error(c2pa::status_tracker::LogItem {
+                    kind: match k {
+                        0 => c2pa::status_tracker::LogKind::Success,
+                        1 => c2pa::status_tracker::LogKind::Informational,
+                        _ => c2pa::status_tracker::LogKind::Failure,
+                    },
+                    label: std::borrow::Cow::Owned(join_url(m, pth)),
+                    description: std::borrow::Cow::Borrowed("verif"),
+                    validation_status: Some(std::borrow::Cow::Owned(code.clone())),
+                    ingredient_uri: u.clone().map(std::borrow::Cow::Owned),
+                    ..Default::default()
+                });
+            }
+            let req = format!("C39 fromstore active={active} captured={} logged={}", fmt_statuses(&captured), fmt_statuses(&logged));
+            run.count("fromstore:synthetic-log");
+            let res = guarded(std::panic::AssertUnwindSafe(|| c2pa::verif_hooks::c04::results_from_store(&store, &log)));
+            match res {
+                Err(pn) => {
+                    let idx = run.case(req, "panic".into());
+                    run.fail(idx, "panic", format!("E{gi}.{li}: {pn}"));
+                }
+                Ok(vr) => {
+                    let v = serde_json::to_value(&vr).unwrap_or(Value::Null);
+                    let reported = flatten_results(&v, true);
+                    // canonical order: the formatted items, sorted as strings
+                    let mut items: Vec<String> = reported.iter().map(|x| fmt_statuses(std::slice::from_ref(x))).collect();
+                    items.sort();
+                    let idx = run.case(req, format!("rep {}", if items.is_empty() { "-".to_string() } else { items.join(";") }));
+                    // oracle (independent of the model): a failure logged for an ingredient manifest is
+                    // reported as a delta failure iff no captured status has its code, url and kind
+                    let mut ok = true;
+                    for s in logged.iter().filter(|s| s.0 == 2 && s.4.is_some() && s.2 != active) {
+                        let cap = captured.iter().any(|c| c.0 == s.0 && c.1 == s.1 && c.2 == s.2 && c.3 == s.3);
+                        let shown = reported.contains(s);
+                        if cap == shown {
+                            ok = false;
+                            run.fail(idx, if cap { "captured-failure-reported-again-as-delta" } else { "uncaptured-ingredient-failure-not-reported" }, format!("E{gi}.{li}: {}@{} captured={cap} reported={shown}", s.1, join_url(&s.2, &s.3)));
+                        }
+                    }
+                    if ok && !logged.is_empty() {
+                        run.nontrivial(format!("E{gi} log={}", fmt_statuses(&logged)));
+                    }
+                }
             }
         }
     }
